@@ -70,6 +70,82 @@ def path(starts, goal_pred, efilter=None, avoid=(), stop=()):
     return None
 
 
+def exc_path(start_edges, goal_pred, efilter=None, avoid=(), stop=()):
+    """token-sensitive shortest path: start_edges = [(node, token)] are the
+    targets of exceptional edges.  While an exception is in flight or being
+    handled, an exceptional edge that merely *continues / re-raises* (its
+    token is not one the source node raises itself) is followed only when it
+    carries the token currently handled."""
+    avoid = set(id(x) for x in avoid)
+    stop = set(id(x) for x in stop)
+    prev = {}
+    work = deque()
+    for (s, tok) in start_edges:
+        key = (id(s), tok)
+        if id(s) in avoid or key in prev:
+            continue
+        prev[key] = (s, None)
+        work.append((s, tok))
+    while work:
+        n, cur = work.popleft()
+        if goal_pred(n):
+            out = []
+            key = (id(n), cur)
+            while key is not None:
+                node, pk = prev[key]
+                out.append(node)
+                key = pk
+            return out[::-1]
+        if id(n) in stop:
+            continue
+        own = n.attrs.get('own', None)
+        for (t, kind, tok) in n.succ:
+            if efilter is not None and not efilter(n, t, kind, tok):
+                continue
+            if id(t) in avoid:
+                continue
+            ncur = cur
+            if kind == 'e':
+                if own is not None and tok in own:
+                    ncur = tok
+                elif tok != cur:
+                    continue
+            key = (id(t), ncur)
+            if key in prev:
+                continue
+            prev[key] = (t, (id(n), cur))
+            work.append((t, ncur))
+    return None
+
+
+def in_loop_body(node, loop_stmt):
+    """node lies inside the body of the given for/while statement (code after
+    the loop that is reachable through `break` does not)"""
+    return any(fr.kind == 'loop' and fr.stmt is loop_stmt for fr in node.frames)
+
+
+def const_branch_filter(rd):
+    """edge filter pruning branches of tests `name ==/!= <const>` (or bare
+    `name`) that are decided by the constants reaching the test"""
+    import ast as _ast
+
+    def ef(a, b, kind, tok):
+        if b.kind == 'branch' and b.attrs['test'].kind == 'test':
+            t = b.attrs['test']
+            e = t.ast
+            if isinstance(e, _ast.Compare) and len(e.ops) == 1 and isinstance(e.left, _ast.Name) and isinstance(e.comparators[0], _ast.Constant) \
+                    and isinstance(e.ops[0], (_ast.Eq, _ast.NotEq, _ast.Is, _ast.IsNot)):
+                defs = rd.at(t, e.left.id)
+                if defs and all(isinstance(d.value, _ast.Constant) and d.kind == 'assign' for d in defs):
+                    vals = {d.value.value for d in defs}
+                    eq = isinstance(e.ops[0], (_ast.Eq, _ast.Is))
+                    truths = {(v == e.comparators[0].value) == eq for v in vals}
+                    if len(truths) == 1 and b.attrs['polarity'] != next(iter(truths)):
+                        return False
+        return True
+    return ef
+
+
 def region_of_loop(cfg, loop_head):
     """per-iteration region of a for/while loop: entry = the branch node that
     enters the body, back edges cut at the head."""
